@@ -29,7 +29,7 @@ MUTANTS = {
         m("get_call_cache-outside-gate", D, "    @db_retry\n    def get_eval_cache(self, eval_hash: str) -> tuple[Any, bool]:\n", "    @db_retry\n    def peek_call(self, call_hash: str):\n        return self.get_call_cache(call_hash)\n\n    @db_retry\n    def get_eval_cache(self, eval_hash: str) -> tuple[Any, bool]:\n", "C03.2"),
         m("stale-task-hashes", S, "            self.task_registry.task_hashes,\n            cache_scope,", "            set(),\n            cache_scope,", "C03.3"),
         m("subtree-not-unioned", S, "                self.subtree_tasks.update(child_job.subtree_tasks)", "                pass", "C03.4"),
-        m("shallow-hit-subtree-dropped", S, "                job.subtree_tasks = self._get_subtree_tasks(job)", "                pass", "C03.4"),
+        m("shallow-hit-subtree-dropped", S, "                # need to query the backend to determine subtree tasks.\n                job.subtree_tasks = self._get_subtree_tasks(job)", "                # need to query the backend to determine subtree tasks.\n                pass", "C03.4"),
         m("subtree-starts-empty", S, "        self.subtree_tasks: set[Task] = {task}", "        self.subtree_tasks: set[Task] = set()", "C03.4"),
     ],
     "C04": [
